@@ -165,29 +165,87 @@ def rule_h3(repo, col, root):
         h = c.methods.get("__hash__")
         if e is None or h is None:
             continue
-        ee, he = single_return_expr(e), single_return_expr(h)
-        if ee is None or he is None:
-            raise AnalysisError("%s.__eq__/__hash__: single return expected" % cname)
-        es, hs = norm(ee), norm(he)
+        he = single_return_expr(h)
+        if he is None:
+            raise AnalysisError("%s.__hash__: single return expected" % cname)
+        hs = norm(he)
         selfp, otherp = e.params[0], e.params[1]
-        ok = None
-        why = ""
-        if _is_identity_eq(e):
-            ok = True
-            why = "identity equality; any hash of the object or of one of its fields is consistent"
-        elif es in ("str(%s) == str(%s)" % (otherp, selfp), "str(%s) == str(%s)" % (selfp, otherp)):
-            # eq-key is str(self); hash-key must be a function of str(self)
-            if hs in ("hash(str(self))", "hash(self.__str__())"):
-                ok, why = True, "hash of the printed form, which is the equality key"
-            elif (cname, hs) in ACCEPTED_STR_PAIRS:
-                ok, why = True, ACCEPTED_STR_PAIRS[(cname, hs)]
+        rets = [r for r in walk_no_nested(e.node) if isinstance(r, ast.Return) and r.value is not None]
+        if not rets:
+            raise AnalysisError("%s.__eq__: no return" % cname)
+        for r in rets:
+            es = norm(r.value)
+            ok = None
+            why = ""
+            if es in ("id(%s) == id(%s)" % (selfp, otherp), "id(%s) == id(%s)" % (otherp, selfp), "%s is %s" % (selfp, otherp), "%s is %s" % (otherp, selfp)):
+                ok, why = True, "identity equality; any hash of the object or of one of its fields is consistent"
+            elif es in ("str(%s) == str(%s)" % (otherp, selfp), "str(%s) == str(%s)" % (selfp, otherp)):
+                if hs in ("hash(str(self))", "hash(self.__str__())"):
+                    ok, why = True, "hash of the printed form, which is the equality key"
+                elif (cname, hs) in ACCEPTED_STR_PAIRS:
+                    ok, why = True, ACCEPTED_STR_PAIRS[(cname, hs)]
+                else:
+                    ok = False
+                    why = ("%s.__eq__ compares printed forms (%s) but __hash__ is %s: values with the same printed form and different hash keys "
+                           "(e.g. Constant(1) and Constant('1')) are equal with different hashes" % (cname, es, hs))
+            elif es in ("False", "True", "NotImplemented"):
+                continue
+            elif _value_compare(r.value, selfp, otherp):
+                continue  # decided by H6
             else:
-                ok = False
-                why = ("%s.__eq__ compares printed forms (%s) but __hash__ is %s: values with the same printed form and different hash keys "
-                       "(e.g. Constant(1) and Constant('1')) are equal with different hashes" % (cname, es, hs))
-        else:
-            raise AnalysisError("%s.__eq__: shape not understood: %s" % (cname, es))
-        col.decide("H3", m, h.node, ok, "%s: %s" % (cname, why), why, construct="def %s.__hash__: %s vs __eq__: %s" % (cname, hs, es), function="%s.__hash__" % cname)
+                raise AnalysisError("%s.__eq__: shape not understood: %s" % (cname, es))
+            col.decide("H3", m, h.node, ok, "%s: %s" % (cname, why), why, construct="def %s.__hash__: %s vs __eq__: %s" % (cname, hs, es), function="%s.__hash__" % cname)
+
+
+def _value_compare(e, a, b):
+    """`a.functor == b.functor` / `a.value == b.value` (either order, == or !=)"""
+    if isinstance(e, ast.Compare) and len(e.ops) == 1 and isinstance(e.ops[0], (ast.Eq, ast.NotEq)):
+        l, r = e.left, e.comparators[0]
+        if isinstance(l, ast.Attribute) and isinstance(r, ast.Attribute) and l.attr == r.attr and l.attr in ("functor", "value") \
+                and isinstance(l.value, ast.Name) and isinstance(r.value, ast.Name) and {l.value.id, r.value.id} == {a, b}:
+            return True
+    return False
+
+
+def rule_h5_h6(repo, col, root):
+    """H5 symmetric class test; H6 constant values are compared together with their type"""
+    m = root.module
+    for cname, pairs in (("Term", [("t1", "t2"), ("self", "other")]), ("Constant", [("self", "other")])):
+        c = repo.cls(MOD, cname)
+        f = c.methods.get("__eq__")
+        if f is None:
+            continue
+        pset = list(pairs)
+        if f.params[:2] != ["self", "other"]:
+            pset.append((f.params[0], f.params[1]))
+        # H5
+        for n in walk_no_nested(f.node):
+            if isinstance(n, ast.Call) and dotted(n.func) == "isinstance" and len(n.args) == 2 and isinstance(n.args[1], ast.Call) and dotted(n.args[1].func) == "type" \
+                    and isinstance(n.args[0], ast.Name) and n.args[1].args and isinstance(n.args[1].args[0], ast.Name):
+                x, y = n.args[0].id, n.args[1].args[0].id
+                if any({x, y} == set(pr) for pr in pset):
+                    mirror = "isinstance(%s, type(%s))" % (y, x)
+                    has_mirror = any(norm(k) == mirror for k in walk_no_nested(f.node) if isinstance(k, ast.Call))
+                    col.decide("H5", m, n, has_mirror, "class test is applied in both directions",
+                               "%s.__eq__ relates the classes of the compared terms with %s only: a subclass instance on one side is accepted but not on the other, so "
+                               "== is not symmetric (x == y while y != x) and the two hash implementations differ" % (cname, norm(n)), function="%s.__eq__" % cname)
+        sym = [n for n in walk_no_nested(f.node) if isinstance(n, ast.Compare) and len(n.ops) == 1 and norm(n.left).startswith("type(") and norm(n.comparators[0]).startswith("type(")
+               and isinstance(n.left, ast.Call) and n.left.args and isinstance(n.left.args[0], ast.Name)]
+        if cname == "Term":
+            col.decide("H5", m, f.node, bool(sym) or any(norm(k).startswith("isinstance(") and "type(" in norm(k) for k in walk_no_nested(f.node) if isinstance(k, ast.Call)),
+                       "Term.__eq__ compares the classes of the two nodes", "Term.__eq__ no longer compares the classes of the two nodes (an int variable and a Term, or a Var and a Constant, could be confused)",
+                       construct="Term.__eq__: class test", function="Term.__eq__")
+        # H6
+        for n in walk_no_nested(f.node):
+            for a, b in pset:
+                if _value_compare(n, a, b):
+                    attr = n.left.attr
+                    want = {"type(%s.%s)" % (a, attr), "type(%s.%s)" % (b, attr)}
+                    typed = any(isinstance(k, ast.Compare) and len(k.ops) == 1 and {norm(k.left), norm(k.comparators[0])} == want for k in walk_no_nested(f.node))
+                    col.decide("H6", m, n, typed, "constant values are compared together with their Python type",
+                               "%s.__eq__ compares constant values with %s but never their types: Python's == identifies 1, 1.0 and True, which unification keeps apart "
+                               "(signatures 1/0 and 1.0/0), so p(1) and p(1.0) become the same key in tables, indexes and result sets" % (cname, norm(n)),
+                               function="%s.__eq__" % cname)
 
 
 def rule_h4(repo, col, root):
@@ -221,9 +279,12 @@ def run(repo, col):
     col.rule("H2", "cross-class equality requires a shared hash")
     col.rule("H3", "hash key is a projection of the equality key")
     col.rule("H4", "equality and unification use the same functor projection")
+    col.rule("H5", "the class test inside __eq__ is symmetric")
+    col.rule("H6", "constant values are compared together with their type (1 vs 1.0)")
     root, classes = hierarchy(repo)
     col.floor("term_hierarchy_classes", len(classes), 10)
     rule_h1(repo, col, classes)
     rule_h2(repo, col, root, classes)
     rule_h3(repo, col, root)
     rule_h4(repo, col, root)
+    rule_h5_h6(repo, col, root)
